@@ -2,7 +2,7 @@
 
 Refuting events: for a generated stylesheet and a position, css_matcher.match /
 balanced_outward / balanced_inward differ from the generator's record."""
-from .. import core, gen_css, probes
+from .. import core, forms, gen_css, probes
 
 ID = 'C10'
 RULE = ('cases = (generated stylesheet, position); stylesheets from random trees of nested rules and ;-terminated declarations with decoys '
@@ -128,11 +128,16 @@ def snap_ranges(lst):
 
 
 HELD = core.Retained(every=7)
+FORM = [0]
 OTHER_SHEET = '@media (min-width: 10px) { .a:hover { color: red; b: url("x;y") } /* } */ c { d: e } }\n$v: 1px;'
 
 
 def check_doc(src, recs, ctx, cm, positions=None, d2=False, retained=False):
     ctx.ev('document')
+    FORM[0] += 1
+    arg = forms.MarkupLike(src) if FORM[0] % 5 == 1 else (forms.Shown(src) if FORM[0] % 5 == 3 else src)
+    if arg is not src:
+        ctx.ev('document:' + type(arg).__name__)
     docase = {'src': src, 'truth': to_json(recs), 'd2': d2}
     n = len(src)
     tops = [r for r in recs if r['parent'] is None and r['type'] == 'rule']
@@ -154,7 +159,7 @@ def check_doc(src, recs, ctx, cm, positions=None, d2=False, retained=False):
         exp = cands[0] if cands else None
         # ---- match
         ctx.mon('oracle:match')
-        r = core.call(cm.match, src, pos)
+        r = core.call(cm.match, arg, pos)
         if r[0] == 'exc':
             ctx.violation('exception', dict(case, fn='match'), {'exc': list(core.exc_site(r[1]))})
         else:
@@ -184,19 +189,19 @@ def check_doc(src, recs, ctx, cm, positions=None, d2=False, retained=False):
 
             def cb(*a, got=got):
                 if not got:
-                    got.append(core.call(cm.match, src, pos))
-                    got.append(core.call(cm.balanced_inward, src, pos))
+                    got.append(core.call(cm.match, arg, pos))
+                    got.append(core.call(cm.balanced_inward, arg, pos))
             outer, plain_outer = [], []
             core.call(cm.scan, OTHER_SHEET, lambda *a: (outer.append(tuple(a)), cb(*a))[0])
             core.call(cm.scan, OTHER_SHEET, lambda *a: plain_outer.append(tuple(a)))
-            pi = core.call(cm.balanced_inward, src, pos)
+            pi = core.call(cm.balanced_inward, arg, pos)
             if len(got) != 2 or got[0][0] != 'ok' or (got[0][1] and snap_match(got[0][1])) != (r[1] and snap_match(r[1])) \
                     or got[1][0] != pi[0] or (pi[0] == 'ok' and snap_ranges(got[1][1]) != snap_ranges(pi[1])) or outer != plain_outer:
                 ctx.violation('reentrant-call-differs', dict(case, fn='match/balanced_inward inside a scan callback'),
                               {'plain': r[1] and snap_match(r[1]), 'inside_callback': repr([g[0] for g in got]), 'outer_tokens_changed': outer != plain_outer})
         # ---- outward
         ctx.mon('oracle:outward')
-        r = core.call(cm.balanced_outward, src, pos)
+        r = core.call(cm.balanced_outward, arg, pos)
         if r[0] == 'exc':
             ctx.violation('exception', dict(case, fn='balanced_outward'), {'exc': list(core.exc_site(r[1]))})
         else:
@@ -215,7 +220,7 @@ def check_doc(src, recs, ctx, cm, positions=None, d2=False, retained=False):
                 ctx.violation('outward-mismatch', case, {'expected': eo[:8], 'actual': ao[:8]})
         # ---- inward
         ctx.mon('oracle:inward')
-        r = core.call(cm.balanced_inward, src, pos)
+        r = core.call(cm.balanced_inward, arg, pos)
         if r[0] == 'exc':
             ctx.violation('exception', dict(case, fn='balanced_inward'), {'exc': list(core.exc_site(r[1]))})
             continue
